@@ -35,6 +35,11 @@ def plan(tier, seed):
 def arr(rng, lo=1, hi=50, increasing=False):
     m = int(rng.integers(lo, hi + 1))
     t = int(rng.integers(0, 4))
+    if hi >= 40 and lo < hi and rng.integers(0, 1000) == 0:
+        m = int(rng.integers(1001, 3001))       # beyond the sizes at which NumPy summarises, blocks or switches algorithm
+        t = 0 if t in (1, 3) else t
+    if t == 3 and m > 90:
+        t = 2
     if increasing or t == 0:
         a = np.cumsum(rng.uniform(0.1, 3, m)) + rng.normal(0, 5)
     elif t == 1:
